@@ -128,6 +128,9 @@ def _read_body(body, out, typevars):
       out["classes"][st.name] = c
     elif isinstance(st, (ast.Import, ast.ImportFrom)):
       out.setdefault("imports", []).append(ast.unparse(st))
+      for al in st.names:
+        if al.asname:
+          out.setdefault("import_bound", set()).add(al.asname)
   for name, fs in seen_funcs.items():
     out["funcs"][name] = fs
 
@@ -441,7 +444,20 @@ def _safe_step(fs, path, **kw):
 def generate(rng):
   chain = rng.random() < 0.35
   progs = {}
-  if chain:
+  pkg = chain and rng.random() < 0.3
+  if pkg:
+    # A is a PACKAGE: a/__init__.py on top of its submodule a/sub.py; the
+    # package binds a public name that equals the submodule's name
+    src0, ex0 = proggen.gen_module(rng, "a.sub", (), errors=False,
+                                   size=rng.randrange(3, 8))
+    src0 += "sub = %s\n" % rng.choice(
+        ["1", "'s'", "[1.5]"] + ["%s()" % c for c in ex0["classes"][:2]])
+    progs["a0"] = src0
+    src, ex = proggen.gen_module(rng, "a", [("a.sub", ex0)], errors=False,
+                                 size=rng.randrange(3, 10))
+    src += rng.choice(["from a.sub import sub\n", "sub = 3\n",
+                       "from a.sub import sub as _s\nsub = [_s]\n"])
+  elif chain:
     src0, ex0 = proggen.gen_module(rng, "a0", (), errors=False,
                                    size=rng.randrange(3, 8))
     progs["a0"] = src0
@@ -452,7 +468,7 @@ def generate(rng):
                                  size=rng.randrange(4, 16))
   progs["a"] = src
   opts = rng.choice([{"quick": True}, {}, {"quick": True}, {"quick": True, "strict_none_binding": True}])
-  return {"programs": progs, "chain": chain, "opts": opts,
+  return {"programs": progs, "chain": chain, "pkg": pkg, "opts": opts,
           "probe_seed": rng.randrange(1 << 30),
           "order": rng.sample(["path", "map", "pickle"], 3)}
 
@@ -467,14 +483,27 @@ def evaluate(trace, detail=False):
   opts = dict(trace["opts"])
   for d in ("/sim/src", "/sim/pp", "/sim/out", "/sim/pk"):
     fs.makedirs(d)
+  pkg = bool(trace.get("pkg"))
+  # name in trace -> (module name, source, text stub, pickled stub, imports-map key)
+  if pkg:
+    layout = {"a0": ("a.sub", "/sim/src/a/sub.py", "/sim/pp/a/sub.pyi",
+                     "/sim/pk/a/sub.pickled", "a/sub"),
+              "a": ("a.__init__", "/sim/src/a/__init__.py", "/sim/pp/a/__init__.pyi",
+                    "/sim/pk/a/__init__.pickled", "a/__init__")}
+    for d in ("/sim/src/a", "/sim/pp/a", "/sim/pk/a"):
+      fs.makedirs(d)
+  else:
+    layout = {n: (n, "/sim/src/%s.py" % n, "/sim/pp/%s.pyi" % n,
+                  "/sim/pk/%s.pickled" % n, n) for n in progs}
   for name, src in progs.items():
-    fs.put("/sim/src/%s.py" % name, src)
+    fs.put(layout[name][1], src)
   order = ["a0", "a"] if trace["chain"] else ["a"]
   text_items, pk_items = [], []
   for name in order:
+    modname, srcp, textp, pkp, mapkey = layout[name]
     # text stub, on the python path dir and as an imports-map target
-    r = _safe_step(fs, "/sim/src/%s.py" % name, module_name=name,
-                         output="/sim/pp/%s.pyi" % name,
+    r = _safe_step(fs, srcp, module_name=modname,
+                         output=textp,
                          imports_map_items=list(text_items) or None,
                          pythonpath="" if text_items else "/sim/pp",
                          report_errors=False, extra=opts)
@@ -483,9 +512,9 @@ def evaluate(trace, detail=False):
       stats["crashed_a"] += 1
       return {"violation": None, "stats": stats, "digest": log.digest(),
               "nontrivial": False, "measure": None}
-    text_items.append((name, "/sim/pp/%s.pyi" % name))
-    rp = _safe_step(fs, "/sim/src/%s.py" % name, module_name=name,
-                          output="/sim/pk/%s.pickled" % name, pickle=True,
+    text_items.append((mapkey, textp))
+    rp = _safe_step(fs, srcp, module_name=modname,
+                          output=pkp, pickle=True,
                           imports_map_items=list(pk_items) or None,
                           pythonpath="", report_errors=False,
                           extra=dict(opts, use_pickled_files=True))
@@ -494,8 +523,8 @@ def evaluate(trace, detail=False):
       stats["crashed_a"] += 1
       return {"violation": None, "stats": stats, "digest": log.digest(),
               "nontrivial": False, "measure": None}
-    pk_items.append((name, "/sim/pk/%s.pickled" % name))
-  a_stub = fs.get_text("/sim/pp/a.pyi")
+    pk_items.append((mapkey, pkp))
+  a_stub = fs.get_text(layout["a"][2])
   log.add("a_stub", a_stub)
   try:
     info = read_stub(a_stub)
@@ -504,7 +533,11 @@ def evaluate(trace, detail=False):
                           "what": "A's emitted stub is not parseable: %s" % ex},
             "stats": stats, "digest": log.digest(), "nontrivial": False,
             "measure": None}
+  a_aliases = typenorm.import_aliases(info.get("imports", []))
   b_src, expect = derive_downstream(info, "a", random.Random(trace["probe_seed"]))
+  if pkg and trace["probe_seed"] % 2:
+    # the downstream module also imports the submodule itself
+    b_src = "import a.sub\n" + b_src
   fs.put("/sim/src/b.py", b_src)
   stats["probes"] = len(expect)
   for k in expect:
@@ -545,16 +578,33 @@ def evaluate(trace, detail=False):
       violation = {"class": "STUB_SYNTAX", "oracle": "stub_readable",
                    "what": "B's stub (%s) is not parseable: %s" % (cfgname, ex)}
       break
+    b_aliases = typenorm.import_aliases(binfo.get("imports", []))
     for pname, want in sorted(expect.items()):
       got = binfo["consts"].get(pname)
       if got is None:
-        # pytype prints module-level names bound to classes/functions as
-        # aliases or defs, not constants; such probes are not comparable
+        # pytype prints module-level names bound to classes/functions/modules
+        # as aliases, defs or imports, not constants; such probes are not
+        # comparable - unless A's stub declares an INSTANCE type: then a name
+        # that B's stub binds through an import is something else than what A
+        # inferred (a module, a class, a function)
+        head = want.split("[", 1)[0].strip()
+        if (pname in binfo.get("import_bound", ()) and
+            head not in ("type", "Type", "typing.Type", "Callable", "typing.Callable",
+                         "Any", "typing.Any") and pname.split("_")[1] in ("c", "i", "a", "g")):
+          line = [l for l in b_src.splitlines() if l.startswith(pname + " ")]
+          violation = {"class": "TYPE_MISMATCH", "oracle": "probe_type",
+                       "what": "B (%s): %s is bound through an import in B's stub "
+                               "(a module, class or function), A's stub declares "
+                               "the instance type %s" % (
+                                   cfgname, line[0] if line else pname, want),
+                       "config": cfgname, "probe": pname,
+                       "kind": pname.split("_")[1]}
+          break
         stats["kinds"]["uncomparable"] = stats["kinds"].get("uncomparable", 0) + 1
         continue
       try:
-        ng = typenorm.norm(got, ("a",))
-        nw = typenorm.norm(want, ("a",))
+        ng = typenorm.norm(got, ("a",), b_aliases)
+        nw = typenorm.norm(want, ("a",), a_aliases)
       except SyntaxError:
         continue
       if ng != nw:
